@@ -124,6 +124,8 @@ def make_git_repo(path, kind):
         return subprocess.run(['git', '-C', path] + args, env=env, check=True, stdout=subprocess.PIPE,
                               stderr=subprocess.DEVNULL, **kw)
     git(['init', '-q'])
+    if kind == 'unborn':
+        return path   # a repository without any commit: HEAD does not resolve
     with open(os.path.join(path, 'README'), 'w') as f:
         f.write('benchmarks\n')
     with open(os.path.join(path, 'msg.txt'), 'wb') as f:
